@@ -400,6 +400,35 @@ def main(tier, seed, replay=None):
                                                   "ont_added": sorted(map(str, added))[:6], "ont_removed": sorted(map(str, before[1] - after[1]))[:6], "ont_changed": True})
     finally:
         shutil.rmtree(imp_dir, ignore_errors=True)
+    # one graph object in two roles: the caller hands the SAME object as shapes graph and as data (or ontology) graph
+    known_alias = "C08-system-triples-in-a-graph-that-is-also-the-shapes-graph"
+    SYSTEM = {(OWL.Class, RDFS.subClassOf, RDFS.Class), (OWL.DatatypeProperty, RDFS.subClassOf, RDF.Property)}
+    for role in ("data", "ontology"):
+        for opts_ in ({}, {"inference": "rdfs"}, {"advanced": True}):
+            g_ = make_data("Graph", split=runs)
+            for t in shapes_graph(False, bool(opts_.get("advanced")) and "triple"):
+                g_.add(t)
+            other = make_data("Graph", split=runs + 1)
+            before = (snapshot(g_), snapshot(other))
+            try:
+                if role == "data":
+                    pyshacl.validate(g_, shacl_graph=g_, **opts_)
+                else:
+                    pyshacl.validate(other, shacl_graph=g_, ont_graph=g_, **opts_)
+            except Exception:
+                pass
+            runs += 1
+            after = (snapshot(g_), snapshot(other))
+            added = {tuple(q)[:3] for q in (after[0] - before[0])}
+            if after[1] != before[1] or (before[0] - after[0]):
+                snap_viol.append({"container": "Graph", "ontology": None, "options": opts_, "api": "validate", "shapes": "the same object as the %s graph" % role,
+                                  "data_added": sorted(map(str, after[0] - before[0]))[:6], "data_removed": sorted(map(str, before[0] - after[0]))[:6], "ont_changed": after[1] != before[1]})
+            elif after[0] != before[0]:
+                if added <= SYSTEM and known_alias in listed:
+                    rep.known_finding(known_alias, "validate() with the same graph object as shacl_graph and as data (or ontology) graph: ShapesGraph writes its two system triples (owl:Class rdfs:subClassOf rdfs:Class, owl:DatatypeProperty rdfs:subClassOf rdf:Property) into that object")
+                else:
+                    snap_viol.append({"container": "Graph", "ontology": None, "options": opts_, "api": "validate", "shapes": "the same object as the %s graph" % role,
+                                      "data_added": sorted(map(str, after[0] - before[0]))[:6], "data_removed": [], "ont_changed": False})
     for d in snap_viol[:10]:
         d["what"] = "the caller's graph object holds different quads after the call (inplace was not requested)"
         rep.violation(d)
